@@ -38,6 +38,7 @@ var (
 	tItemPtr   = reflect.TypeOf((*zset.Item)(nil))
 	tError     = reflect.TypeOf((*error)(nil)).Elem()
 	tValueType = reflect.TypeOf(ds.ValueType(0))
+	tGeoMember = reflect.TypeOf((*nodis.GeoMember)(nil))
 )
 
 // results that come out of Go maps or random selection in an order the model cannot predict
@@ -68,6 +69,21 @@ func splitGroups(toks []string) [][]string {
 
 func scalar(t reflect.Type, tok string) reflect.Value {
 	switch {
+	case t == tGeoMember: // <member>:<longitude bits>:<latitude bits>
+		parts := strings.Split(tok, ":")
+		if len(parts) != 3 {
+			panic("bad geo member " + tok)
+		}
+		b, err := parseArg(parts[0])
+		if err != nil {
+			panic(err)
+		}
+		lo, err1 := strconv.ParseUint(parts[1], 16, 64)
+		la, err2 := strconv.ParseUint(parts[2], 16, 64)
+		if err1 != nil || err2 != nil {
+			panic("bad geo member " + tok)
+		}
+		return reflect.ValueOf(&nodis.GeoMember{Member: string(b), Longitude: math.Float64frombits(lo), Latitude: math.Float64frombits(la)})
 	case t == tDuration:
 		ms, _ := strconv.ParseInt(tok, 10, 64)
 		return reflect.ValueOf(time.Duration(ms) * time.Millisecond)
